@@ -380,9 +380,15 @@ func report(prop, tier string, seed int, l *Loaded, results []*taskResult, known
 		},
 		"assumptions": assumptions,
 	}
-	os.MkdirAll(filepath.Join(verifDir, "evidence"), 0o755)
+	evDir := filepath.Join(verifDir, "evidence")
+	if r := os.Getenv("SYMGO_REPO"); r != "" && r != "/repo" {
+		// a run against another checkout (seeded change in a scratch worktree) must not overwrite
+		// the evidence of /repo
+		evDir = filepath.Join(verifDir, "out", "evidence-altrepo")
+	}
+	os.MkdirAll(evDir, 0o755)
 	b, _ := json.MarshalIndent(ev, "", " ")
-	if err := os.WriteFile(filepath.Join(verifDir, "evidence", prop+".json"), b, 0o644); err != nil {
+	if err := os.WriteFile(filepath.Join(evDir, prop+".json"), b, 0o644); err != nil {
 		fmt.Fprintln(os.Stderr, "writing evidence:", err)
 		return 2
 	}
